@@ -196,15 +196,20 @@ def assemble(unit, repo):
                     body = body[:m.start()] + body[j:]
             # (2) hints and loop invariants
             body_lines = body.split("\n")
+            lost = []
             for anchor, text in val["hints"]:
                 hits = [k for k, l in enumerate(body_lines) if l.strip() == anchor]
                 if len(hits) != 1:
-                    raise LostAnchor("hint anchor %r matches %d lines in %s" % (anchor, len(hits), val["anchor"]))
+                    # the body was restructured: try without this ghost hint; if the proof then fails the
+                    # obligation is reported UNDECIDED (never as a violation), see check:classify_verus
+                    lost.append("hint before %r in %s" % (anchor, val["anchor"]))
+                    continue
                 body_lines[hits[0]:hits[0]] = text
             for anchor, text in val["loops"]:
                 hits = [k for k, l in enumerate(body_lines) if l.strip() == anchor]
                 if len(hits) != 1:
-                    raise LostAnchor("loop anchor %r matches %d lines in %s" % (anchor, len(hits), val["anchor"]))
+                    lost.append("loop invariant at %r in %s" % (anchor, val["anchor"]))
+                    continue
                 k = hits[0]
                 l = body_lines[k]
                 if not l.rstrip().endswith("{"):
@@ -220,6 +225,6 @@ def assemble(unit, repo):
             report.append({"function": val["anchor"], "source": val["source"],
                            "byte_range": [a, b], "sha256_real_text": real_sha,
                            "ghost_hints": len(val["hints"]), "loop_invariants": len(val["loops"]),
-                           "dropped_macro_statements": dropped})
+                           "dropped_macro_statements": dropped, "lost_ghost_anchors": lost})
     out += ["", "} // verus!", "fn main() {}", ""]
     return "\n".join(out), report
